@@ -78,6 +78,15 @@ def checkSource(source, components, maxindex):
     return source
 
 
+def _setAttribute(node, name, value):
+    """Set an attribute of an xml node from a value of the model; a value the
+    model does not have (None) cannot be serialised, the attribute is left out."""
+    if value is None:
+        node.attrib.pop(name, None)
+    else:
+        node.set(name, value)
+
+
 def parseFloatArray(text):
     """Parse whitespace separated floats into a float32 array.
 
